@@ -125,6 +125,8 @@ Proof.
   - destruct (find_slot slot_retr (t_sess (tb s))) as [[id xi]|]; auto.
     destruct (find_slot slot_dropped (t_sess (tb s))) as [[id xi]|]; auto.
     destruct (t_get id now (tb s)); reflexivity.
+  - destruct (t_lookup id (tb s)) as [x|]; auto.
+    destruct (nth_error (s_exch x) xi) as [[[]|]|]; auto. destruct (t_get id now (tb s)); reflexivity.
   - pose proof (ex_add_hids mx s id true now) as H. destruct (ex_add mx s id true now) as [s1 r].
     cbn [fst] in H. destruct r; auto. destruct (c =? E_NOSPACE_EXCH); auto.
   - reflexivity.
